@@ -191,6 +191,10 @@ def run_check(mod, ctx, prop, tier, seed, t0, args):
         if st == 'reproduced':
             if (prop, k) in known: known_hit.append((k, known[(prop, k)]))
             else: new_viol.append((k, v, detail))
+        elif st == 'lemma-only':
+            # a unit-level contract the property's mechanism relies on fails, but no input of the public API shows the property violated:
+            # recorded, neither a violation nor an inconclusive run
+            ctx.notes.append('unit contract breached without an observable violation of the property: %s' % str(detail)[:600])
         else:
             not_repro.append((k, v, st, detail))
     # ---- optional second engine of the same family: z3 judging real outputs (other back-ends, larger instances)
